@@ -468,6 +468,21 @@ def local_defs(func, name):
     return out
 
 
+def reaching_defs(g, func, name, target_nodes, labels=None):
+    """Definitions (stmt, value) of local ``name`` that reach one of target_nodes on some normal path
+    without being overwritten on the way (flow-sensitive counterpart of local_defs)."""
+    defs = local_defs(func, name)
+    nodes = {id(st): g.nodes_of(st) for st, _ in defs}
+    out = []
+    tset = set(target_nodes)
+    for st, v in defs:
+        others = [n for st2, _ in defs if st2 is not st for n in nodes[id(st2)]]
+        r = g.reach(nodes[id(st)], avoid=others, labels=labels or g.NORMAL)
+        if tset & set(r):
+            out.append((st, v))
+    return out
+
+
 def path_values(g, func, target_nodes, exprs, labels=None):
     """For every acyclic path from the entry to one of target_nodes: (conditions, [value of
     each expr at the end of the path]).  A Name is replaced by the value last assigned to it
@@ -900,6 +915,30 @@ def _atom_key(expr):
     `a not in b` of `a in b`; `a is not b` of `a is b`."""
     if isinstance(expr, ast.Compare) and len(expr.ops) == 1:
         op, l, r = expr.ops[0], expr.left, expr.comparators[0]
+        if isinstance(op, (ast.Eq, ast.NotEq, ast.Lt, ast.LtE, ast.Gt, ast.GtE)) and \
+                any(isinstance(x, ast.BinOp) and isinstance(x.op, (ast.Add, ast.Sub)) for side in (l, r) for x in ast.walk(side)):
+            # integer-linear comparison: keyed by the normal form of (left - right), so `i == n - 1` and `i + 1 == n` are one atom
+            from .poly import poly, show, NotPoly
+            try:
+                a, b = poly(l), poly(r)
+                d = dict(a)
+                for k_, v_ in b.items():
+                    d[k_] = d.get(k_, 0) - v_
+                d = {k_: v_ for k_, v_ in d.items() if v_}
+                neg_d = {k_: -v_ for k_, v_ in d.items()}
+                if isinstance(op, (ast.Eq, ast.NotEq)):
+                    first = sorted(d.items())[0][1] if d else 1
+                    return f'lin:{show(d if first > 0 else neg_d)} == 0', isinstance(op, ast.NotEq)
+                if isinstance(op, ast.Lt):
+                    return f'lin:{show(d)} < 0', False
+                if isinstance(op, ast.GtE):
+                    return f'lin:{show(d)} < 0', True
+                if isinstance(op, ast.Gt):
+                    return f'lin:{show(neg_d)} < 0', False
+                if isinstance(op, ast.LtE):
+                    return f'lin:{show(neg_d)} < 0', True
+            except NotPoly:
+                pass
         if isinstance(op, ast.LtE):
             return f'{norm(r)} < {norm(l)}', True
         if isinstance(op, ast.GtE):
@@ -1045,3 +1084,32 @@ def is_call_args_attr(func, expr, attr='extra_args'):
 def ntext(func, expr):
     """norm() of expr with a top-level single-definition local replaced by its definition."""
     return norm(resolve_local(func, expr)) if expr is not None else None
+
+
+def self_alias_text(func, expr):
+    """norm(expr) with every local name N replaced by `self.<a>` when the function stores `self.<a> = N` before this use
+    and neither N nor self.<a> is assigned again afterwards (the local and the attribute then hold the same object):
+    `self._config = config ... config.max_x` reads as `self._config.max_x`."""
+    import copy
+    amap = {}
+    for n in own_nodes(func.node):
+        if isinstance(n, ast.Assign) and len(n.targets) == 1 and isinstance(n.targets[0], ast.Attribute) and isinstance(n.targets[0].value, ast.Name) \
+                and n.targets[0].value.id == 'self' and isinstance(n.value, ast.Name):
+            amap.setdefault(n.value.id, []).append(n)
+    if not amap or expr is None:
+        return norm(expr) if expr is not None else None
+    pos = getattr(expr, '_pos', None)
+
+    class T(ast.NodeTransformer):
+        def visit_Name(self, node):
+            for st in amap.get(node.id, []):
+                if pos is None or st._pos >= pos:
+                    continue
+                attr = st.targets[0].attr
+                later = [x for x in own_nodes(func.node) if getattr(x, '_pos', -1) > st._pos and x is not st.targets[0] and (
+                    (isinstance(x, ast.Name) and x.id == node.id and not isinstance(x.ctx, ast.Load)) or
+                    (isinstance(x, ast.Attribute) and x.attr == attr and not isinstance(x.ctx, ast.Load)))]
+                if not later:
+                    return ast.Attribute(value=ast.Name(id='self', ctx=ast.Load()), attr=attr, ctx=ast.Load())
+            return node
+    return norm(T().visit(copy.deepcopy(expr)))
